@@ -885,7 +885,10 @@ fn check_norm<F: linfa::Float>(c: &mut Case, kind: u8, b64: &Array2<f64>, with_m
             return fail("C16/norm/non-finite", json!({"case":desc,"row":i,"input_row":x,"output_row":y.iter().map(|v| format!("{v}")).collect::<Vec<_>>()}));
         }
         let ny = norm_of(kind, &y);
-        let w = (p + 2) as f64;
+        // at the bottom of the range the norm itself is only representable up to half a
+        // subnormal spacing: eps*w grows by that relative amount
+        let denorm_min = to64(&Array2::from_elem((1, 1), F::min_positive_value() * F::epsilon()))[[0, 0]];
+        let w = (p + 2) as f64 + denorm_min / nx / eps;
         if let Err(rt) = within(c, "norm-unit-ratio", (ny - 1.0).abs(), eps * w, C_FLOOR) {
             return fail("C16/norm/not-unit", json!({"case":desc,"row":i,"input_row":x,"output_row":y,"output_norm":ny,"ratio":rt,"cmax":C_FLOOR}));
         }
@@ -1426,6 +1429,18 @@ fn gen_rows(rng: &mut Rng, n: usize, p: usize, f32mode: bool) -> Array2<f64> {
         }
     }
     b.mapv_inplace(|v| if v != 0.0 && (v.abs() < lo || v.abs() > hi) { 0.0 } else { v });
+    // finite, non-zero rows at the very bottom of the element type's range (subnormal norms)
+    if std::env::var("C16_NO_TINY").is_err() && rng.gen_range(0..4) == 0 {
+        let i = rng.gen_range(0..n);
+        // ... or near the top of it (their squares overflow)
+        let tiny = if rng.gen_bool(0.5) { if f32mode { 1e-42 } else { 1e-310 } } else if f32mode { 1e36 } else { 1e305 };
+        for j in 0..p {
+            b[[i, j]] = tiny * rng.gen_range(-4..=4) as f64;
+        }
+        if b.row(i).iter().all(|v| *v == 0.0) {
+            b[[i, 0]] = 3.0 * tiny;
+        }
+    }
     if n >= 2 && rng.gen_bool(0.3) {
         let (i, k) = (rng.gen_range(0..n), rng.gen_range(0..n));
         let r = b.row(i).to_owned();
